@@ -192,6 +192,55 @@ def _part2(ck, prog):
     ck.require(okk, "C17.3", "%s: an empty read leaves the loop" % q.fn(fp), "`if not %s: break`" % rv,
                "an empty read (peer closed the connection before sending Content-Length bytes) does not leave the read loop: the handler "
                "spins forever on EOF", q.loc(fp, reads[0]))
+    # the size handed to rfile.read() is an integer for a body of any length: built from int(...), integer constants, min / max,
+    # + - * // % only - a true division (`/`) or a float constant anywhere in it (fields of the handler or server it reads included)
+    # makes read() raise TypeError as soon as that operand decides the size (bodies above the chunk size are answered 500)
+    rd_call = reads[0].ast.value
+    if rd_call.args:
+        seen_attrs, floaty = set(), []
+
+        def _scan_int(e_, where_):
+            for x_ in ast.walk(e_):
+                if isinstance(x_, ast.BinOp) and isinstance(x_.op, ast.Div):
+                    floaty.append((where_, dump(x_)[:50]))
+                if isinstance(x_, ast.Constant) and isinstance(x_.value, float):
+                    floaty.append((where_, repr(x_.value)))
+                if isinstance(x_, ast.Call) and isinstance(x_.func, ast.Name) and x_.func.id == "float":
+                    floaty.append((where_, dump(x_)[:50]))
+                if isinstance(x_, ast.Attribute) and isinstance(x_.value, ast.Name) and x_.value.id == "self" and x_.attr not in seen_attrs:
+                    seen_attrs.add(x_.attr)
+                    for f2 in prog.module_funcs(SRV):
+                        for st2 in ast.walk(f2.node):
+                            if isinstance(st2, (ast.Assign, ast.AugAssign)):
+                                tg2 = st2.targets if isinstance(st2, ast.Assign) else [st2.target]
+                                if any(isinstance(t2, ast.Attribute) and t2.attr == x_.attr for t2 in tg2):
+                                    if isinstance(st2, ast.AugAssign) and isinstance(st2.op, ast.Div):
+                                        floaty.append((q.fn(f2), dump(st2)[:50]))
+                                    _scan_int(st2.value, q.fn(f2))
+                    for ci2 in prog.classes.values():
+                        if ci2.module == SRV:
+                            for st2 in ci2.node.body:
+                                if isinstance(st2, ast.Assign) and any(isinstance(t2, ast.Name) and t2.id == x_.attr for t2 in st2.targets):
+                                    _scan_int(st2.value, "%s.%s" % (SRV, ci2.name))
+        # the expression itself and the definitions of the locals it uses
+        todo_, done_ = [rd_call.args[0]], set()
+        while todo_:
+            e_ = todo_.pop()
+            _scan_int(e_, q.fn(fp))
+            for x_ in ast.walk(e_):
+                if isinstance(x_, ast.Name) and x_.id not in done_:
+                    done_.add(x_.id)
+                    for st2 in ast.walk(fp.node):
+                        if isinstance(st2, ast.Assign) and any(isinstance(t2, ast.Name) and t2.id == x_.id for t2 in st2.targets):
+                            todo_.append(st2.value)
+                        if isinstance(st2, ast.AugAssign) and isinstance(st2.target, ast.Name) and st2.target.id == x_.id:
+                            if isinstance(st2.op, ast.Div):
+                                floaty.append((q.fn(fp), dump(st2)[:50]))
+                            todo_.append(st2.value)
+        ck.require(not floaty, "C17.3", "%s: the size given to rfile.read() is an integer" % q.fn(fp), "no true division / float in `%s`" % dump(rd_call.args[0])[:40],
+                   "the size given to rfile.read() can be a float (%s in %s): read() raises TypeError for a non-integer size, so a body larger "
+                   "than that chunk size is not reassembled but answered with an error" % (floaty[0][1] if floaty else "", floaty[0][0] if floaty else ""),
+                   q.loc(fp, reads[0]))
     # every read of the request stream belongs to that loop, and the remaining size only shrinks by what was actually read
     stray = [c for c in ast.walk(fp.node) if isinstance(c, ast.Call) and call_name(c) in ("read", "read1", "readinto", "readline", "readlines")
              and "rfile" in dump(c.func) and not any(sub is c for sub in ast.walk(loop))]
@@ -337,6 +386,18 @@ def _part3(ck, prog):
                 ck.require(isinstance(sp, shape.K) and sp.v == path, "C17.4", "%s: socket path for %s" % (q.fn(finit), label), "the URL path %r" % path,
                            "for %s the Unix transport is given the socket path %r, not the URL's path %r" % (label, sp, path), q.loc(finit, finit.node))
     ck.stat("url_cases", n4)
+    # the URL is split with urlparse's documented defaults (the stub above stands for exactly that): `allow_fragments=False` leaves
+    # "#fragment" in the path or the query, a default scheme changes which URLs are rejected
+    ginit_ = cfg_of(finit)
+    up_ = [(n, c) for n in ginit_.live_nodes() for c in node_calls(n) if call_name(c) in ("urlparse", "urlsplit")]
+    if not up_:
+        raise AnalysisError("anchor vanished: urlparse(...) in ServerProxy.__init__")
+    for (n, c) in up_:
+        okk = len(c.args) == 1 and not c.keywords and prov.origin(ginit_, n, c.args[0]) == ("param", finit.params[1])
+        ck.require(okk, "C17.4", "%s: `%s`" % (q.fn(finit), dump(c)[:50]), "urlparse(<the URL given>) with default options",
+                   "the URL is split by `%s`: with options (allow_fragments=False, a default scheme) or on another text than the URL "
+                   "given, the path / query stored as request target are not those of the URL (a '#fragment' stays in the target)" % dump(c)[:60],
+                   q.loc(finit, n))
     # ... and the transport hands that target on unchanged, down to the request line
     fsr = prog.func("jsonrpc", "TransportMixIn.send_request")
     fsg = prog.func("jsonrpc", "TransportMixIn.single_request")
@@ -370,6 +431,7 @@ def _part4(ck, prog):
 def _part5(ck, prog):
     # ---- C17.7 the declared content type cannot be overridden (shared with C18.4) --------------------------------------------
     common.import_rules(ck, _c18r.rule_readonly_table, {"C18.3": "C17.7"})
+    common.import_rules(ck, _c18r, {"C18.3": "C17.7"})      # (the names written on the wire are the filtered ones: no second Content-Length / Content-Type)
     ck.floor("C17.7", 1)
 
 
